@@ -192,4 +192,13 @@ def run(tier, seed):
                              "clause_violated": "enabling-features-removed-a-marker-impl",
                              "observed": "%s: %s under the smaller set, %s under the larger" % (enc, bits, big)})
         stats["distinct"].add("census:%s:%d" % (a, len(rows[a])))
+    # (5) ... and adds only sound ones: a census cell that the language does not guarantee (the C04 row monitor), under any
+    # feature configuration, is an impl that some configuration declares without warrant
+    m4, _, _ = fam_tables.findings(rt, "C04")
+    for case in m4:
+        if case.get("fn") != 410:
+            continue
+        mons.append({"kind": "impls", "features": case.get("cfg"), "type": case.get("text"),
+                     "clause_violated": "a-feature-configuration-declares-a-marker-impl-whose-contract-the-language-does-not-guarantee",
+                     "observed": case.get("observed"), "line": case.get("line")})
     return mons, stats
